@@ -1147,3 +1147,33 @@ class WeightVectorMonitor:
                             f"path's frames {tuple(want)}",
                             orders=orders[:80], interfaces=intf,
                             mc_moves=moves, cap=out.get("cap"))
+
+
+# --------------------------------------------------------------------------
+class ExeDirMonitor:
+    """C03 rider on the engine side: whatever the scheduler's bookkeeping
+    says, the directory an engine object actually works in while it serves a
+    job must be that job's worker directory, and an engine object serves one
+    job at a time."""
+
+    def before_run_md(self, rig, md_items):
+        from infretis.classes.engines.enginebase import EngineBase
+        self.expect = {os.path.realpath(v["exe_dir"])
+                       for v in md_items["picked"].values()}
+        self.orig = EngineBase.propagate
+        mon, orig = self, EngineBase.propagate
+
+        def propagate(eng, *a, **kw):
+            rig.reach("engine_exe_dir")
+            got = os.path.realpath(eng.exe_dir)
+            if got not in mon.expect:
+                rig.violate("engine-runs-in-foreign-directory",
+                            f"engine {type(eng).__name__} propagates in "
+                            f"{got}, the job was given {sorted(mon.expect)}",
+                            ens=list(md_items["picked"]))
+            return orig(eng, *a, **kw)
+        EngineBase.propagate = propagate
+
+    def after_run_md(self, rig, out):
+        from infretis.classes.engines.enginebase import EngineBase
+        EngineBase.propagate = self.orig
